@@ -808,8 +808,6 @@ func checkFuncSignature(n *FuncCallNode, sig *FuncSignature, args []ExprType) *E
 }
 
 func (sema *ExprSemanticsChecker) checkBuiltinFuncCall(n *FuncCallNode, sig *FuncSignature) ExprType {
-	sema.checkSpecialFunctionAvailability(n)
-
 	// Special checks for specific built-in functions
 	switch strings.ToLower(n.Callee) {
 	case "format":
@@ -872,6 +870,9 @@ func (sema *ExprSemanticsChecker) checkFuncCall(n *FuncCallNode) ExprType {
 	for _, a := range n.Args {
 		tys = append(tys, sema.check(a))
 	}
+
+	// Whether the function can be called here does not depend on whether its arguments are correct
+	sema.checkSpecialFunctionAvailability(n)
 
 	// Check all overloads
 	errs := []*ExprError{}
